@@ -20,37 +20,38 @@ var round5Rules = map[string][]func(*report.Ctx){
 	"C01": {checkFrontEndOutcomes, checkProxyWriteKeepsBody, checkNoServerTimeouts, checkCustomerHeadersEncoding},
 	"C04": {checkSuspendConsumesRelease, checkCountAgentsCountsBoth},
 	"C05": {checkFrontEndOutcomes, checkCancelFlowsUnconditional, checkTeardownEntryPointsUnconditional, checkTimeoutArmAlwaysResets, checkNoServerTimeouts},
-	"C06": {checkFrontEndOutcomes, checkCancelFlowsUnconditional, checkInitFailuresClosed, checkAppCtxMiddlewareOnRouters, checkContextClearedOnlyByReset, checkSingleEventSender, checkErrorResponseTypeVerbatim, checkBootstrapFallbackTypes, checkRuntimeLookedUpAfterSuccess},
+	"C06": {checkFrontEndInitAndStatus, checkFrontEndOutcomes, checkCancelFlowsUnconditional, checkInitFailuresClosed, checkAppCtxMiddlewareOnRouters, checkContextClearedOnlyByReset, checkSingleEventSender, checkErrorResponseTypeVerbatim, checkBootstrapFallbackTypes, checkRuntimeLookedUpAfterSuccess},
 	"C19": {checkSingleEventSender},
-	"C15": {checkBootstrapFallbackTypes, checkLaunchErrorVerbatim, checkAgentAutomataTruthful},
-	"C07": {checkNilErrorNotHandled, checkFrontEndOutcomes, checkCancelFlowsUnconditional, checkInitFailuresClosed, checkTeardownEntryPointsUnconditional, checkSingleEventSender, checkRuntimeLookedUpAfterSuccess},
-	"C08": {checkExitChannelAfterExec, checkTeardownEntryPointsUnconditional, checkHandlerClosuresStateless},
+	"C15": {checkAgentMapsAsArray, checkBootstrapFallbackTypes, checkLaunchErrorVerbatim, checkAgentAutomataTruthful},
+	"C07": {checkNoEmptyCriticalSection, checkNilErrorNotHandled, checkFrontEndOutcomes, checkCancelFlowsUnconditional, checkInitFailuresClosed, checkTeardownEntryPointsUnconditional, checkSingleEventSender, checkRuntimeLookedUpAfterSuccess},
+	"C08": {checkAppCtxPrimitives, checkExitChannelAfterExec, checkTeardownEntryPointsUnconditional, checkHandlerClosuresStateless},
 	"C20": {checkHandlerClosuresStateless, checkCropOwnLength},
-	"C09": {checkAgentReleaseUnconditional, checkSuspendConsumesRelease, checkTeardownEntryPointsUnconditional, checkDeadlineUnit, checkShutdownFuncOrder, checkCountAgentsCountsBoth},
+	"C09": {checkAgentMapsAsArray, checkAgentReleaseUnconditional, checkSuspendConsumesRelease, checkTeardownEntryPointsUnconditional, checkDeadlineUnit, checkShutdownFuncOrder, checkCountAgentsCountsBoth},
 	"C12": {checkHandlersReplyOnce, checkCurrentInvokeIDTruthful, checkAppCtxMiddlewareOnRouters, checkJSONReplyBufferOwned},
 	"C02": {checkCurrentInvokeIDTruthful},
-	"C10": {checkFrontEndOutcomes},
-	"C13": {checkHandlersReplyOnce, checkSuspendConsumesRelease, checkExtensionsFlagOn, checkAppCtxMiddlewareOnRouters, checkJSONReplyBufferOwned, checkEmulatorInitCopy},
+	"C10": {checkFrontEndOutcomes, checkFrontEndInitAndStatus},
+	"C13": {checkNoEmptyCriticalSection, checkHandlersReplyOnce, checkSuspendConsumesRelease, checkExtensionsFlagOn, checkAppCtxMiddlewareOnRouters, checkJSONReplyBufferOwned, checkEmulatorInitCopy},
 	"C03": {checkExtensionsFlagOn, checkAgentListing},
 	"C14": {checkProxyWriteKeepsBody, checkBufferedDirectOversize},
-	"C17": {checkCustomerHeadersEncoding, checkBufferedDirectOversize, checkStreamingModeOverride, checkBucketAcceptsValidCombinations, checkMetricsNeverNil, checkRefillAlwaysAnnounced},
+	"C17": {checkDirectInvokeOptionalHeaders, checkBufferedDirectClassification, checkNoEmptyCriticalSection, checkCustomerHeadersEncoding, checkBufferedDirectOversize, checkStreamingModeOverride, checkBucketAcceptsValidCombinations, checkMetricsNeverNil, checkRefillAlwaysAnnounced},
 	"C16": {checkEmulatorInitCopy, checkSplitEnvVerbatim},
-	"C18": {checkUpdateCredentialsApplied, checkInitTypeBeforeServer},
+	"C18": {checkNoEmptyCriticalSection, checkUpdateCredentialsApplied, checkInitTypeBeforeServer},
 }
 
 // round5Text: the sentence added to each property's explanation for the rules above.
 var round5Text = map[string]string{
-	"C01": "the front end's response proxy keeps every body and refuses none; its server sets no write or whole-request deadline; the client context is standard base64 both ways.",
+	"C10": "After the mutation sweep: the invoke endpoint answers every error Sandbox.Invoke can report with a failure status (and the captured body for the two 'done failed' cases), the timeout with its message, and success with the captured body and status, on every path.",
+	"C01": "the front end's response proxy keeps every body and refuses none; its server sets no write or whole-request deadline; the client context is standard base64 both ways. After the mutation sweep: the invoke endpoint answers every error Sandbox.Invoke can report with a failure status (and the captured body for the two 'done failed' cases), the timeout with its message, and success with the captured body and status, on every path.",
 	"C02": "GetCurrentInvokeID answers \"\" only when there is no invocation context (a duplicate for the in-flight id is a 403 of the automaton, not a 400 of the id check).",
 	"C03": "an entry of the extensions directory is listed exactly when it is not a directory, the path check is textual; the Extensions API is switched on unconditionally; cancelling a latch marks, records and wakes on every path.",
 	"C04": "the park primitive consumes the release it was woken by (one event per release); CountAgents consults both registries.",
-	"C05": "from the timeout case of Invoke no return is reachable without a synchronous Reset; the one-shot cancel reaches both flows; shutdown and clear entry points do their work in every state; no answer deadline on the front end's server.",
-	"C06": "CancelFlows reaches both flows on every path; the init-failure channel is closed on both outcomes; routers install the application-context middleware before its readers; only the sandbox Reset clears the execution context; the supervisor has a single event sender after cmd.Wait; the error document carries the fault type unaltered; fallback fault types after Cmd()/Cwd(); the runtime object is used only after a successful doInvoke.",
-	"C07": "as C06 for cancel fan-out, init-failure channel, single event sender and runtime lookup; teardown entry points unconditional; hand-unlocked regions are checked against panics behind interface dispatch.",
+	"C05": "from the timeout case of Invoke no return is reachable without a synchronous Reset; the one-shot cancel reaches both flows; shutdown and clear entry points do their work in every state; no answer deadline on the front end's server. After the mutation sweep: the invoke endpoint answers every error Sandbox.Invoke can report with a failure status (and the captured body for the two 'done failed' cases), the timeout with its message, and success with the captured body and status, on every path.",
+	"C06": "CancelFlows reaches both flows on every path; the init-failure channel is closed on both outcomes; routers install the application-context middleware before its readers; only the sandbox Reset clears the execution context; the supervisor has a single event sender after cmd.Wait; the error document carries the fault type unaltered; fallback fault types after Cmd()/Cwd(); the runtime object is used only after a successful doInvoke. After the mutation sweep: the invoke endpoint answers every error Sandbox.Invoke can report with a failure status (and the captured body for the two 'done failed' cases), the timeout with its message, and success with the captured body and status, on every path.",
+	"C07": "as C06 for cancel fan-out, init-failure channel, single event sender and runtime lookup; teardown entry points unconditional; hand-unlocked regions are checked against panics behind interface dispatch. After the mutation sweep: the invoke endpoint answers every error Sandbox.Invoke can report with a failure status (and the captured body for the two 'done failed' cases), the timeout with its message, and success with the captured body and status, on every path. No service-time function handles the error of a call on the edge where it was tested to be nil while ignoring it where it is one (a flipped error test).",
 	"C08": "an exit channel is created only after a successful Exec; Clear re-initialises in every phase; no request-handling closure writes a variable it captured.",
 	"C09": "an extension's Release posts the release in every state and the park primitive consumes it; handleShutdown always runs the choreography; the reset deadline is Monotime() + 1 000 000 * timeoutMs; shutdown functions run in registration order with the sandbox reset first; CountAgents consults both registries.",
-	"C12": "GetCurrentInvokeID is truthful; routers install the application-context middleware; the JSON reply body comes from a buffer allocated by that call.",
-	"C13": "the park primitive consumes the release; the Extensions API is switched on unconditionally; the extensions router installs the application-context middleware; JSON reply buffer owned by the call; the front end's init request reaches the server field by field (handler included).",
+	"C12": "GetCurrentInvokeID is truthful; routers install the application-context middleware; the JSON reply body comes from a buffer allocated by that call. After the mutation sweep: every API handler answers each request on every path, and a second time only on the error edge of the first answer.",
+	"C13": "the park primitive consumes the release; the Extensions API is switched on unconditionally; the extensions router installs the application-context middleware; JSON reply buffer owned by the call; the front end's init request reaches the server field by field (handler included). After the mutation sweep: every API handler answers each request on every path, and a second time only on the error edge of the first answer.",
 	"C14": "the front end's response proxy keeps every body; on the buffered direct-invoke path Oversized is said only when strictly more than the limit was copied.",
 	"C15": "fallback fault types after Cmd()/Cwd(); the launch error is a sentinel or the supervisor's own error (classification by identity and os.IsPermission); the extension automata are checked here too (the status lines report their states and recorded error types).",
 	"C16": "every field of the front end's init request (handler included) reaches the server's; key and value of KEY=VALUE are the two sides of the first '=' exactly as given.",
@@ -1915,4 +1916,315 @@ func checkNilErrorNotHandled(c *report.Ctx) {
 	}
 	sort.Strings(bad)
 	c.Check("R-ERRUSE", "nil-error-not-handled", "in no service-time function is the error of a call returned, reported or stored in the block entered by the very edge on which it was tested to be nil", len(bad) == 0 && ntests >= 50, pos, ntests, "error tests examined: %d; tested value used on its nil edge: %v", ntests, bad)
+}
+
+// checkNoEmptyCriticalSection: no mutex is released right after it was acquired (a `defer` lost in front of an
+// Unlock leaves `Lock(); Unlock()` and the section it was meant to protect runs unprotected).
+func checkNoEmptyCriticalSection(c *report.Ctx) {
+	n := 0
+	var bad []string
+	pos := token.NoPos
+	for _, f := range repoFuncs(c) {
+		if strings.HasPrefix(an.FuncName(f), "L/testdata.") {
+			continue
+		}
+		for _, b := range f.Blocks {
+			var open ssa.Instruction
+			openPath := ""
+			for _, in := range b.Instrs {
+				ops := an.LockOps1(in)
+				switch {
+				case ops.Acquire && !ops.Deferred:
+					n++
+					open, openPath = in, ops.Path
+				case ops.Release && !ops.Deferred:
+					if open != nil && ops.Path == openPath && !an.DeferOrigin(in) {
+						bad = append(bad, an.FuncName(f)+": "+openPath)
+						pos = an.InstrPos(in)
+					}
+					open = nil
+				default:
+					switch in.(type) {
+					case *ssa.FieldAddr, *ssa.UnOp, *ssa.IndexAddr, *ssa.DebugRef:
+						// address computations and loads between the two do not make a critical section... but a load is
+						// a read of protected state: only pure address arithmetic is ignored
+						if u, isU := in.(*ssa.UnOp); isU && u.Op == token.MUL {
+							if _, isFA := u.X.(*ssa.FieldAddr); isFA {
+								// reading a field: is it the mutex holder itself (s.mu path)? then ignore
+								if !strings.HasSuffix(u.Type().String(), "Mutex") && !strings.HasSuffix(u.Type().String(), "Locker") && !strings.Contains(u.Type().String(), "sync.") && !strings.Contains(u.Type().String(), "Suspendable") {
+									open = nil
+								}
+							} else {
+								open = nil
+							}
+						}
+					default:
+						open = nil
+					}
+				}
+			}
+		}
+	}
+	sort.Strings(bad)
+	c.Check("R-LOCK", "no-empty-critical-section", "no function releases a mutex immediately after acquiring it", len(bad) == 0 && n >= 40, pos, n, "acquisitions: %d; released at once: %v", n, bad)
+}
+
+// checkAppCtxPrimitives: the key space's Delete deletes and Store stores (the reset's "every key is deleted" rests on it).
+func checkAppCtxPrimitives(c *report.Ctx) {
+	actT := "L/appctx.applicationContext"
+	if f := fn(c, "L/appctx", "(*applicationContext).Delete"); f != nil {
+		n, ok, where := beforeEveryReturn(f, func(in ssa.Instruction) bool {
+			call, isC := in.(*ssa.Call)
+			if !isC {
+				return false
+			}
+			b, isB := call.Call.Value.(*ssa.Builtin)
+			if !isB || b.Name() != "delete" || len(call.Call.Args) != 2 {
+				return false
+			}
+			_, isP := call.Call.Args[1].(*ssa.Parameter)
+			return an.IsFieldLoad(call.Call.Args[0], actT, "m") && isP
+		})
+		if where == token.NoPos {
+			where = fpos(f)
+		}
+		c.Check("R-ORDER", an.FuncName(f)+"/deletes", "Delete removes the key it is given from the context's map on every path", ok, where, n, "delete(m, key) sites: %d, on every path: %v", n, ok)
+	}
+	if f := fn(c, "L/appctx", "(*applicationContext).Store"); f != nil {
+		n, ok, where := beforeEveryReturn(f, func(in ssa.Instruction) bool {
+			mu, isM := in.(*ssa.MapUpdate)
+			if !isM {
+				return false
+			}
+			_, kP := mu.Key.(*ssa.Parameter)
+			_, vP := mu.Value.(*ssa.Parameter)
+			return an.IsFieldLoad(mu.Map, actT, "m") && kP && vP
+		})
+		if where == token.NoPos {
+			where = fpos(f)
+		}
+		c.Check("R-ORDER", an.FuncName(f)+"/stores", "Store puts the value under the key on every path", ok, where, n, "m[key] = value sites: %d, on every path: %v", n, ok)
+	}
+}
+
+// checkAgentMapsAsArray: the list of registered extensions handed to the shutdown fan-out and the status lines holds
+// every registered extension.
+func checkAgentMapsAsArray(c *report.Ctx) {
+	for _, mp := range []string{"ExternalAgentsMap", "InternalAgentsMap"} {
+		f := fn(c, coreP, "(*"+mp+").AsArray")
+		if f == nil {
+			continue
+		}
+		// an append of the element being visited, inside a range over one of the two indexes (directly, or in the
+		// callback handed to Visit, which ranges over byName)
+		appends, inRange := 0, false
+		for _, g := range an.WithAnon(f) {
+			an.AllInstrs(g, func(in ssa.Instruction) {
+				call, ok := in.(*ssa.Call)
+				if !ok {
+					return
+				}
+				if b, isB := call.Call.Value.(*ssa.Builtin); isB && b.Name() == "append" {
+					appends++
+					if g != f || an.InLoop(in) {
+						inRange = true
+					}
+				}
+			})
+		}
+		visits := len(an.Calls(f, func(s string) bool { return strings.HasSuffix(s, mp+".Visit") }))
+		loops := 0
+		an.AllInstrs(f, func(in ssa.Instruction) {
+			if r, ok := in.(*ssa.Range); ok && (an.IsFieldLoad(r.X, "L/core."+mp, "byName") || an.IsFieldLoad(r.X, "L/core."+mp, "byID")) {
+				loops++
+			}
+		})
+		c.Check("R-WIRE", an.FuncName(f)+"/every-entry", "AsArray appends every entry of the map to the slice it returns (it walks an index, itself or through Visit, and appends the visited element)", appends >= 1 && inRange && visits+loops >= 1, fpos(f), appends, "appends: %d, inside the walk: %v; Visit calls: %d, ranges over an index: %d", appends, inRange, visits, loops)
+	}
+}
+
+// checkFrontEndInitAndStatus: the front end initialises the sandbox exactly when it has not done so yet, copies a
+// status only when one was set, and its proxy records the status it is given.
+func checkFrontEndInitAndStatus(c *report.Ctx) {
+	f := fn(c, "M/cmd/aws-lambda-rie", "InvokeHandler")
+	if f == nil {
+		return
+	}
+	isDone := func(v ssa.Value) bool { return an.IsGlobalLoad(v, "M/cmd/aws-lambda-rie.initDone") }
+	n, ok := 0, true
+	pos := fpos(f)
+	for _, g := range an.WithAnon(f) {
+		facts := an.NewFacts(g)
+		for _, call := range an.CallsTo(g, "M/cmd/aws-lambda-rie.InitHandler") {
+			n++
+			if !facts.Holds(call.Block(), func(ft an.Fact) bool { return !ft.Val && isDone(ft.Cond) }) {
+				ok = false
+				pos = an.InstrPos(call)
+			}
+		}
+	}
+	c.Check("R-GUARD", an.FuncName(f)+"/initialises-when-not-done", "InitHandler runs exactly on the path where initDone is still false", ok && n == 1, pos, n, "InitHandler calls: %d, under !initDone: %v", n, ok)
+	facts := an.NewFacts(f)
+	ns, oks := 0, true
+	an.AllInstrs(f, func(in ssa.Instruction) {
+		call, isC := in.(*ssa.Call)
+		if !isC || an.Callee(call) != "net/http.ResponseWriter.WriteHeader" {
+			return
+		}
+		arg := an.Strip(call.Common().Args[0], true)
+		fr, k := an.AsField(arg)
+		if !k || fr.Field != "StatusCode" {
+			return
+		}
+		ns++
+		if !facts.Holds(in.Block(), func(ft an.Fact) bool {
+			r, isR := an.AsRel(ft)
+			if !isR {
+				return false
+			}
+			for _, rr := range []an.Rel{r, r.Flip()} {
+				if rr.X == arg || an.Path(rr.X) == an.Path(arg) {
+					if z, isC := an.ConstInt(rr.Y); isC && z == 0 && rr.Op == token.NEQ {
+						return true
+					}
+				}
+			}
+			return false
+		}) {
+			oks = false
+		}
+	})
+	c.Check("R-GUARD", an.FuncName(f)+"/status-copied-when-set", "the captured status is written only when the platform set one (WriteHeader(0) panics)", oks && ns == 1, fpos(f), ns, "WriteHeader(captured status) sites: %d, under status != 0: %v", ns, oks)
+	if wh := fn(c, "M/cmd/aws-lambda-rie", "(*ResponseWriterProxy).WriteHeader"); wh != nil {
+		n2, ok2, where := beforeEveryReturn(wh, isStoreOf("M/cmd/aws-lambda-rie.ResponseWriterProxy", "StatusCode", func(v ssa.Value) bool { _, k := v.(*ssa.Parameter); return k }))
+		if where == token.NoPos {
+			where = fpos(wh)
+		}
+		c.Check("R-ORDER", an.FuncName(wh)+"/records-status", "the response proxy records the status code it is given on every path", ok2, where, n2, "stores: %d, on every path: %v", n2, ok2)
+	}
+}
+
+// checkDirectInvokeOptionalHeaders: an optional header is parsed only when present (absent means the default, which
+// was stored just before), and the payload-limit override is taken only for n >= -1.
+func checkDirectInvokeOptionalHeaders(c *report.Ctx) {
+	f := fn(c, diP, "ReceiveDirectInvoke")
+	if f == nil {
+		return
+	}
+	facts := an.NewFacts(f)
+	n, ok := 0, true
+	pos := fpos(f)
+	for _, call := range an.CallsTo(f, "strconv.ParseInt") {
+		arg := call.Common().Args[0]
+		if cl, _ := an.CallOf(arg); cl == nil || an.Callee(cl) != "net/http.Header.Get" {
+			continue
+		}
+		n++
+		if !facts.Holds(call.Block(), func(ft an.Fact) bool {
+			bo, isB := ft.Cond.(*ssa.BinOp)
+			if !isB {
+				return false
+			}
+			s, isC := an.ConstString(bo.Y)
+			if !(isC && s == "" && bo.X == arg) {
+				return false
+			}
+			return bo.Op == token.NEQ && ft.Val || bo.Op == token.EQL && !ft.Val
+		}) {
+			ok = false
+			pos = an.InstrPos(call)
+		}
+	}
+	c.Check("R-GUARD", an.FuncName(f)+"/optional-headers-parsed-when-present", "each numeric optional header is parsed only when it is present; absent, the default stored just before stays", ok && n >= 3, pos, n, "header parses: %d, all under header != \"\": %v", n, ok)
+	okMax := false
+	an.AllInstrs(f, func(in ssa.Instruction) {
+		st, k := in.(*ssa.Store)
+		if !k || globalName(st.Addr) != diP+".MaxDirectResponseSize" {
+			return
+		}
+		if _, isC := an.Strip(st.Val, true).(*ssa.Const); isC {
+			return
+		}
+		if g := an.GlobalOf(st.Val); g != "" {
+			return
+		}
+		if facts.Holds(st.Block(), func(ft an.Fact) bool {
+			r, isR := an.AsRel(ft)
+			if !isR {
+				return false
+			}
+			for _, rr := range []an.Rel{r, r.Flip()} {
+				if rr.X == st.Val {
+					if z, isC := an.ConstInt(rr.Y); isC && (rr.Op == token.GEQ && z == -1 || rr.Op == token.GTR && z == -2) {
+						return true
+					}
+				}
+			}
+			return false
+		}) {
+			okMax = true
+		}
+	})
+	c.Check("R-GUARD", an.FuncName(f)+"/range/MaxDirectResponseSize", "the payload limit header is taken only for values >= -1 (-1 meaning unlimited)", okMax, fpos(f), 1, "override guarded by n >= -1: %v", okMax)
+}
+
+// checkBufferedDirectClassification: on the buffered direct-invoke path the End-Of-Response trailer is set exactly
+// once on every path: Truncated on a copy error, Oversized over the limit, Complete otherwise.
+func checkBufferedDirectClassification(c *report.Ctx) {
+	g := fn(c, diP, "sendPayloadLimitedResponse")
+	if g == nil {
+		return
+	}
+	name := an.FuncName(g)
+	facts := an.NewFacts(g)
+	isTrailer := func(in ssa.Instruction) bool {
+		call, ok := in.(ssa.CallInstruction)
+		if !ok || an.Callee(call) != "net/http.Header.Set" {
+			return false
+		}
+		s, k := an.ConstString(call.Common().Args[1])
+		return k && s == "End-Of-Response"
+	}
+	// only the paths past the mode parsing (an early refusal sets no trailer)
+	vals := map[string]string{}
+	ntr := 0
+	an.AllInstrs(g, func(in ssa.Instruction) {
+		if !isTrailer(in) {
+			return
+		}
+		ntr++
+		call := in.(ssa.CallInstruction)
+		v, _ := an.ConstString(call.Common().Args[2])
+		cond := "else"
+		if facts.Holds(in.Block(), func(ft an.Fact) bool {
+			return an.CmpNil(ft, false, func(x ssa.Value) bool { return an.IsResultOf(x, "io.Copy", 1) })
+		}) {
+			cond = "copy-error"
+		}
+		if v == "Oversized" {
+			cond = "oversized"
+		}
+		vals[cond] = v
+	})
+	copies := an.CallsTo(g, "io.Copy")
+	once := false
+	if len(copies) == 1 {
+		ord := an.NewOrder(g, func(in ssa.Instruction) uint64 {
+			if isTrailer(in) {
+				return 1
+			}
+			return 0
+		})
+		once = true
+		for _, e := range an.Exits(g) {
+			if !an.InstrDominates(copies[0], e.Ret) {
+				continue
+			}
+			if must, _ := ord.Before(e.Ret); must&1 == 0 {
+				once = false
+			}
+		}
+	}
+	_, max := an.Count(g, isTrailer)
+	c.Check("R-CONST", name+"/classification", "after the copy the End-Of-Response trailer is set on every path, once: Truncated exactly on a copy error, Oversized over the limit, Complete otherwise", once && max == 1 && ntr == 3 && vals["copy-error"] == "Truncated" && vals["oversized"] == "Oversized" && vals["else"] == "Complete", fpos(g), ntr, "trailer sites: %d; set on every path after the copy: %v; at most once: %v; values: %v", ntr, once, max == 1, vals)
 }
